@@ -34,7 +34,13 @@ RULE = ('interp (check): d in 1..3, axis lengths 1..6, uniform / non-uniform dya
         'in a row -- direct call at an integer point (integer result), direct call at a float point, '
         'space.element / mesh out= / point array on float64/float32 spaces, and a parametrised callable sampled '
         'with real c, then c=a+bj on a complex space, then real again -- every step compared with point-wise '
-        'evaluation. Non-trivial = values not all equal; distinct by the full input tuple.')
+        'evaluation. Every out= array (interpolators, sampling entry points per flavour, vector-valued, histories, '
+        'Resampling, linear_deform) is NaN-prefilled and C / F / transposed / strided / negative-stride. 25% of the '
+        'interp cases use almost-uniform nodes (relative perturbation 1e-4, 1e-6, 1e-9) and/or grids scaled by 1e-3, '
+        '1e-6, 1e-9, 1e6 with points at nodes, next to midpoints (exact ties excluded) and next to cell edges. shapes '
+        '(hcheck): every factory called with np.zeros(shape) for all shapes of rank 0-2 with entries 0..4 (and some '
+        'rank 3) on 1-3 dimensional grids -> scalar / result shape / ValueError. Non-trivial = values not all equal; '
+        'distinct by the full input tuple.')
 ASSUMPTIONS = [
     'exact arithmetic: coordinates/values are small integers or dyadic rationals so float operations are exact '
     '(non-dyadic spacings compared with tolerance 1e-12 and without tie points); rounding, overflow, NaN inputs are '
@@ -51,7 +57,9 @@ ASSUMPTIONS = [
 ]
 TRUSTED = ['translate/interp_weights.py (Python ast -> Gallina, fail-closed): _compute_nearest/linear_weights_edge, the '
            'scheme dispatch, index clamping + normalised distance of _find_indices, np.where pick of '
-           '_NearestInterpolator._evaluate',
+           '_NearestInterpolator._evaluate, which evaluator each factory instantiates (per_axis all-nearest dispatch, '
+           'linear scheme), the ordered out checks of _Interpolator.__call__, is_valid_input_array, '
+           'out_shape_from_array and the array branch of _check_interp_input',
            'C15/Model.v hand-written part: searchsorted as prefix count, NumPy negative-index wrap, C-order flat '
            'indexing, the 2^d corner loop, calling conventions, collocation (tied by the correspondence)',
            'C15/Call.v: which calls are rejected / non-finite (tied by the correspondence, error classes as enum)',
@@ -1404,14 +1412,19 @@ LEVEL_TEXT = ('Proof (partial: callable wrapping is validated, not proved). Over
               'overshoots; the documented one-cell linear decay outside the hull; linearity in the values (complex); '
               'mesh-grid evaluation = point-wise evaluation in C order; collocation gives the function at the nodes, '
               'sampling then interpolating returns the function at nodes (affine: everywhere in the hull); resampling '
-              'onto the same grid is the identity. Three full statements are proved FALSE of the faithful model '
-              '(single-node linear axis -> nan; mesh grid with one point on the first axis rejected; per-axis nearest on '
-              'integers raises) and recorded as findings with the provable restriction.')
-LEVEL_NOTE = ('Tie: translator (fail-closed) for the table-like helpers + in-Coq correspondence (1400 quick / 11000 '
-              'thorough cases at Q, tolerance 0 on dyadic inputs) for searchsorted/indexing/corner loop/conventions/'
-              'error classes, sampling entry points, Resampling and linear_deform. Trusted: the translator, NumPy '
+              'onto the same grid is the identity; the code equals the complete textbook reference at every real '
+              'point; the input-shape conventions equal the documented table for every shape. One full statement is '
+              'proved FALSE of the faithful model (single-node linear axis -> nan, open finding); two defects of the '
+              'pinned snapshot (mesh grid with one point on the first axis rejected; per-axis nearest on integers '
+              'raises) were repaired in /repo: the positive statements are live theorems about the current code, the '
+              'refutations remain as statements about the explicit old variant.')
+LEVEL_NOTE = ('Tie: translator (fail-closed) for the table-like helpers, the factory dispatch, the out checks and the '
+              'input-shape conventions + in-Coq correspondence (1700 quick / 13000 thorough cases at Q, tolerance 0 on '
+              'dyadic inputs) for searchsorted/indexing/corner loop/conventions/error classes, sampling entry points, '
+              'call histories, memory layouts, Resampling and linear_deform. The run at Q is PROVED to be the rational '
+              'restriction of the model at R (C15/Transfer.v, no side condition). Trusted: the translator, NumPy '
               'searchsorted/fancy indexing/broadcasting semantics as modelled, exact arithmetic (rounding, e.g. complex '
-              'division by reciprocal near ties, out of scope), Q/R instance coincidence. Axioms: classical reals + '
-              'funext as printed by Print Assumptions.')
+              'division by reciprocal near ties, out of scope). Axioms: classical reals + funext as printed by Print '
+              'Assumptions.')
 TECHNIQUE = ('Coq proofs by induction on the axis list and on node lists (real-closed-field arithmetic per axis) over '
              'source-regenerated weight rules + in-Coq differential correspondence')
